@@ -1048,6 +1048,11 @@ def prune : PK → Ctx → Option Ctx
   | .ite cop cv cval top tv tval els, ctx => pruneIte cop cv cval top tv tval els ctx
   | .allDiff xs, ctx => pruneAllDiff xs ctx
 
+/-- `Table::new`: tuples whose arity differs from the number of variables are dropped (they can
+never match) -/
+def mkTable (xs : List Nat) (ts : List (List Int)) : PK :=
+  .table xs (ts.filter (fun t => t.length == xs.length))
+
 def optL : Option Nat → List Nat
   | none => []
   | some i => [i]
